@@ -1081,7 +1081,7 @@ def _shear_group(lineindex, cutindex):
         blockA, infoA = _extract_range_stmt(L, PARR, 'build_disl_array', _assign_to('newvects'), _assign_to('length'))
         blockB, infoB = _extract_stmt(L, PARR, 'build_disl_array', _assign_to('expected'))
         tagg = '[line=%d,cut=%d]' % (lineindex, cutindex)
-        E.prove('shear.blocks_found' + tagg, infoA['last_line'] > infoA['first_line'] and infoB['first_line'] > infoA['last_line'])
+        E.shape('shear.blocks_found' + tagg, infoA['last_line'] > infoA['first_line'] and infoB['first_line'] > infoA['last_line'])
         core = L.resolve('atomman.core')
         Box = core.Box
         first = True
